@@ -202,8 +202,56 @@ fn tmpdir_round_trip(ctx: &mut Ctx) {
     let _ = std::fs::remove_dir(format!("{}/vmon-c20-b", ctx.tmpdir));
 }
 
+// Names handed out through the library's own caller of temp_file_name (`serialize::test`, which returns the name when
+// asked not to remove the file) mixed with direct calls: a call made inside the library counts like any other.
+fn through_library_callers(ctx: &mut Ctx) {
+    if cfg!(miri) { return; }
+    let rounds = ctx.size(6, 30);
+    for r in 0..rounds {
+        if !ctx.begin_case() { continue; }
+        let part = format!("vmon-via-test-{}-{}", ctx.shard, r);
+        let threads = 1 + r % 5;
+        let calls = 120;
+        let barrier = Arc::new(Barrier::new(threads));
+        let handles: Vec<_> = (0..threads).map(|t| { let (b, part) = (barrier.clone(), part.clone()); std::thread::spawn(move || {
+            b.wait();
+            let value: Vec<u64> = vec![t as u64, 7, 77];
+            let mut names: Vec<(String, bool)> = Vec::new();
+            for k in 0..calls {
+                match (k + t) % 4 {
+                    0 => names.push((serialize::temp_file_name(&part).to_string_lossy().to_string(), false)),
+                    1 => { if let Some(p) = serialize::test(&value, &part, Some(4), false) { names.push((p.to_string_lossy().to_string(), true)); } },
+                    2 => { let _ = serialize::test(&value, &part, None, true); },
+                    _ => { if let Some(p) = serialize::test(&value, &part, None, false) { names.push((p.to_string_lossy().to_string(), true)); } names.push((serialize::temp_file_name(&part).to_string_lossy().to_string(), false)); },
+                }
+            }
+            names
+        }) }).collect();
+        let mut seen: HashSet<String> = HashSet::new();
+        let mut dup: Option<String> = None;
+        let mut files: Vec<String> = Vec::new();
+        let mut total = 0usize;
+        for h in handles {
+            match h.join() {
+                Ok(v) => for (p, is_file) in v {
+                    total += 1; ctx.checks += 1;
+                    if !p.rsplit('/').next().unwrap_or("").contains(&part) { ctx.violation("temp_file_name.name_part", format!("path {} does not contain the name part {}", p, part)); }
+                    if !seen.insert(normal(&p)) && dup.is_none() { dup = Some(p.clone()); }
+                    if is_file { files.push(p); }
+                },
+                Err(_) => ctx.violation("temp_file_name.via_test!panic", format!("a thread panicked in serialize::test / temp_file_name (name part {})", part)),
+            }
+        }
+        for f in files.iter() { let _ = std::fs::remove_file(f); }
+        if let Some(p) = dup { ctx.violation("temp_file_name.duplicate.via_library_caller", format!("path {} was returned twice: {} thread(s) mixing temp_file_name with serialize::test(.., remove = false / true) on name part {} ({} names)", p, threads, part, total)); }
+        ctx.case(hash64(&[0xF9, r as u64, total as u64]), true);
+        ctx.sample(|| format!("via library callers: {} thread(s) x {} steps mixing temp_file_name, serialize::test(keep) and serialize::test(remove); {} names", threads, calls, total));
+    }
+}
+
 pub fn run(ctx: &mut Ctx) {
     tmpdir_round_trip(ctx);
+    through_library_callers(ctx);
     fresh_processes(ctx);
     spellings(ctx);
     stale_files(ctx);
